@@ -51,9 +51,10 @@ def frictionless(ctx):
     if rng.random() < 0.3:
         # a futures chain (front month or a later month) as rebalancing target: the position
         # must land in the contract the chain designates at the current time
-        chain = FutureChain(rng.choice([ES, NK]), "2019-01", "2020-12", month=rng.choice([0, 1, 2]))
+        chain_month = rng.choice([0, 1, 2])
+        chain = FutureChain(rng.choice([ES, NK]), "2019-01", "2020-12", month=chain_month)
         cs = [c for c in cs if not (isinstance(c, (ES, NK)))] + [chain]
-        ctx.cat("chain-target:month%d" % chain._month)
+        ctx.cat("chain-target:month%d" % chain_month)
     ex = gen.new_exchange(t, fees)
     mid = {}
     for c in cs:
@@ -70,7 +71,7 @@ def frictionless(ctx):
         if c is chain:
             cand = sorted([f for f in chain.contracts if f.last_trading_date > AbstractContract.now],
                           key=lambda f: f.last_trading_date)
-            return cand[chain._month]
+            return cand[chain_month]
         return c
     dep = rng.choice([1e5, 1e7])
     b = Broker(ex, deposit=dep)
@@ -151,7 +152,7 @@ def frictionless(ctx):
                                     len({gen.is_margined(c) for c in cs}) == 2)
     gross = gross
     AbstractContract.now = datetime.min
-    ctx.sample = {"frictionless": True, "contracts": [gen.describe_contract(c) if c is not chain else {"chain": type(chain.contracts[0]).__name__, "month": chain._month} for c in cs], "measure": meas,
+    ctx.sample = {"frictionless": True, "contracts": [gen.describe_contract(c) if c is not chain else {"chain": type(chain.contracts[0]).__name__, "month": chain_month} for c in cs], "measure": meas,
                   "targets": tgt, "targeted": [c.symbol if c is not chain else "chain" for c in keys], "prior_rebalances": nhist, "deposit": dep}
 
 
